@@ -41,28 +41,41 @@ with or without an encoding filter, any life-cycle state, any buffered data),
 any callback, any API call: a non-positive callback answer at any invocation
 during the call makes the call return an error. -/
 theorem api_fault_reported {σ : Type} (W : Writer σ) (w : σ) (h : Handle) (c : ApiCall)
+    (hfree : c = .free → h.state ≠ .fatal)
     (hbad : ∃ e ∈ (runApi W w h c).2.2.1, e.ret ≤ 0) : (runApi W w h c).1 ≤ -30 := by
   cases c with
   | header e => exact apiHeader_bad W w h e hbad
   | data d => exact apiData_bad W w h d hbad
   | finishEntry => exact apiFinishEntry_bad W w h hbad
   | close => exact apiClose_bad W w h hbad
-  | free => exact apiFree_bad W w h hbad
+  | free => exact apiFree_bad W w h (hfree rfl) hbad
 
 /-- The ustar writer (header block, body, entry padding, end-of-archive blocks). -/
 theorem ustar_fault_reported {σ : Type} (W : Writer σ) (w : σ) (h : Handle) (c : ApiCall)
-    (_hfmt : h.fmt = .ustar) (hbad : ∃ e ∈ (runApi W w h c).2.2.1, e.ret ≤ 0) :
-    (runApi W w h c).1 ≤ -30 := api_fault_reported W w h c hbad
+    (_hfmt : h.fmt = .ustar) (hfree : c = .free → h.state ≠ .fatal)
+    (hbad : ∃ e ∈ (runApi W w h c).2.2.1, e.ret ≤ 0) :
+    (runApi W w h c).1 ≤ -30 := api_fault_reported W w h c hfree hbad
 
 /-- The b64encode write filter (as repaired). -/
 theorem b64_fault_reported {σ : Type} (W : Writer σ) (w : σ) (h : Handle) (c : ApiCall) (e : EncState)
-    (_henc : h.enc = some e) (_hk : e.kind = .b64) (hbad : ∃ e ∈ (runApi W w h c).2.2.1, e.ret ≤ 0) :
-    (runApi W w h c).1 ≤ -30 := api_fault_reported W w h c hbad
+    (_henc : h.enc = some e) (_hk : e.kind = .b64) (hfree : c = .free → h.state ≠ .fatal)
+    (hbad : ∃ e ∈ (runApi W w h c).2.2.1, e.ret ≤ 0) :
+    (runApi W w h c).1 ≤ -30 := api_fault_reported W w h c hfree hbad
 
 /-- The uuencode write filter (as repaired). -/
 theorem uu_fault_reported {σ : Type} (W : Writer σ) (w : σ) (h : Handle) (c : ApiCall) (e : EncState)
-    (_henc : h.enc = some e) (_hk : e.kind = .uu) (hbad : ∃ e ∈ (runApi W w h c).2.2.1, e.ret ≤ 0) :
-    (runApi W w h c).1 ≤ -30 := api_fault_reported W w h c hbad
+    (_henc : h.enc = some e) (_hk : e.kind = .uu) (hfree : c = .free → h.state ≠ .fatal)
+    (hbad : ∃ e ∈ (runApi W w h c).2.2.1, e.ret ≤ 0) :
+    (runApi W w h c).1 ≤ -30 := api_fault_reported W w h c hfree hbad
+
+/-- Freeing a handle that has already failed closes whatever filters are still open (their
+buffers, compressor state and the client's output stream are released) and returns OK: the
+failure was reported by the call that made the handle fail. -/
+theorem free_after_failure {σ : Type} (W : Writer σ) (w : σ) (h : Handle) (hf : h.state = .fatal) :
+    (apiFree W w h).1 = 0 ∧ (apiFree W w h).2.2.1 = (filtersClose W w h).2.2.1 := by
+  unfold apiFree
+  simp [hf]
+  rfl
 
 /-- An open raw-format handle with a b64encode filter in pass-through mode (nothing pending but the trailer). -/
 def exHandle : Handle :=
